@@ -41,6 +41,78 @@ pub fn random_arcs(r: &mut Rng, n: usize, p: f64) -> Model {
     m
 }
 
+/// Legal but unrelated API use, run before some cases on the same thread: a
+/// later call must not depend on what the thread did earlier (thread-local
+/// scratch buffers, caches that only grow, state left behind by a caught
+/// panic). All panics are caught; results are discarded.
+pub fn pollute(r: &mut Rng) {
+    use crate::ctx::catch;
+    use graaf::*;
+    for _ in 0..r.range(1, 3) {
+        match r.below(9) {
+            0 => {
+                // searches on cyclic / self-referential predecessor vectors
+                let n = r.range(1, 8);
+                let pred: Vec<Option<usize>> = (0..n).map(|_| if r.chance(0.15) { None } else { Some(r.below(n)) }).collect();
+                let t = PredecessorTree::from(pred);
+                let (s, x) = (r.below(n), r.below(n));
+                let _ = catch(|| t.search(s, x));
+                let _ = catch(|| t.search_by(s, |_, p| p.is_none()));
+            }
+            1 => {
+                // a constructor that unwinds half-way through its input
+                let n = r.range(2, 6);
+                let mut arcs: Vec<(usize, usize)> = (0..r.range(1, 5)).map(|_| (r.below(n), n + r.below(3))).collect();
+                arcs.push((n, n));
+                let _ = catch(|| AdjacencyMatrix::from(arcs.clone()).order());
+                let _ = catch(|| EdgeList::from(arcs.clone()).order());
+                let rows: Vec<std::collections::BTreeSet<usize>> = (0..n).map(|u| [(u + 1) % n, if u == n - 1 { u } else { (u + 2) % n }].into_iter().collect()).collect();
+                let _ = catch(|| AdjacencyList::from(rows.clone()).order());
+                let _ = catch(|| AdjacencyMap::from(rows).order());
+            }
+            2 => {
+                // bigger objects than the case will use
+                let n = *r.pick(&[70usize, 130, 257]);
+                let _ = catch(|| (AdjacencyMap::complete(n).order(), AdjacencyList::cycle(n).order(), AdjacencyMatrix::star(n).order(), EdgeList::path(n).order()));
+            }
+            3 => {
+                // traversals that panic on a source outside the digraph
+                let d = AdjacencyList::cycle(5);
+                let _ = catch(|| Bfs::new(&d, [9usize].into_iter()).count());
+                let _ = catch(|| Dfs::new(&d, [9usize].into_iter()).count());
+                let _ = catch(|| BfsPred::new(&d, [0usize, 7].into_iter()).predecessors());
+            }
+            4 => {
+                let d = AdjacencyMap::circuit(r.range(2, 40));
+                let _ = catch(|| Johnson75::new(&d).circuits().len());
+                let _ = catch(|| Tarjan::new(&d).components().len());
+            }
+            5 => {
+                let n = r.range(2, 30);
+                let d = AdjacencyMatrix::random_tournament(n, r.next());
+                let _ = catch(|| (d.complement().size(), d.converse().size(), d.union(&AdjacencyMatrix::cycle(n + 3)).size()));
+            }
+            6 => {
+                let mut d = AdjacencyListWeighted::<isize>::empty(4);
+                let _ = catch(|| d.add_arc_weighted(0, 1, -3));
+                let _ = catch(|| d.add_arc_weighted(1, 0, 1));
+                let _ = catch(|| d.add_arc_weighted(1, 9, 1));
+                let _ = catch(|| BellmanFordMoore::new(&d, 0).distances().map(<[isize]>::to_vec));
+                let _ = catch(|| FloydWarshall::new(&d).distances().center());
+            }
+            7 => {
+                let n = r.range(20, 90);
+                let _ = catch(|| (AdjacencyMap::erdos_renyi(n, 0.7, r.next()).size(), AdjacencyMap::random_tournament(n, r.next()).size()));
+            }
+            _ => {
+                let a = AdjacencyList::complete(r.range(1, 40));
+                let b = AdjacencyList::path(r.range(1, 60));
+                let _ = catch(|| (a.union(&b).size(), a.complement().size(), b.is_semicomplete(), a.degree_sequence().count()));
+            }
+        }
+    }
+}
+
 /// One of the nine public fixtures of the repository (the inputs whose
 /// expected values the test-suite pins), read back through arcs()/order().
 pub fn fixture(r: &mut Rng) -> Model {
@@ -453,6 +525,16 @@ pub fn digraph(r: &mut Rng, max: usize) -> (usize, Model) {
     let fam = r.below(FAMILIES.len());
     let n = small_order(r, max);
     (fam, family(r, fam, n))
+}
+
+/// Relabel the largest vertex id to usize::MAX (the largest legal id).
+pub fn with_max_id(m: &Model) -> Model {
+    let Some(&top) = m.verts.iter().max() else { return m.clone() };
+    let f = |v: usize| if v == top { usize::MAX } else { v };
+    Model {
+        verts: m.verts.iter().map(|&v| f(v)).collect(),
+        arcs: m.arcs.iter().map(|(&(u, v), &w)| ((f(u), f(v)), w)).collect(),
+    }
 }
 
 /// Relabel a contiguous digraph with strictly increasing sparse ids.
